@@ -6,6 +6,7 @@
    to the specification is decided by the correspondence check, not here. *)
 From GV Require Import Lib.Tactics Lib.Bytes Rlp.Codec Trie.Hex Trie.Node Trie.Ops Trie.Hash Trie.Canon.
 From GV Require Import EVM.Word256 EVM.Memory EVM.Gas EVM.State EVM.Instr EVM.Step EVM.Interp EVM.InterpProofs.
+From GV Require Import EVM.StateProofs EVM.RefundProofs.
 From GV Require Import EVM.Tx EVM.Block.
 From GV Require Gas.Fees.
 Local Open Scope N_scope.
@@ -13,8 +14,8 @@ Local Open Scope N_scope.
 (* ------------------------------------------------------------------ *)
 (* the outermost frame with an access list: same bounds as top_call / top_create *)
 
-Lemma top_call_al_good e w pcs al to value input gas :
-  let r := top_call_al e w pcs al to value input gas in t_gas r <= gas /\ okst (t_status r).
+Lemma top_call_al_good e w pcs al auths to value input gas :
+  let r := top_call_al e w pcs al auths to value input gas in t_gas r <= gas /\ okst (t_status r).
 Proof.
   unfold top_call_al. cbv zeta.
   match goal with |- context [evm_call ?rc ?a ?b ?c ?d ?ee ?f ?g ?h ?i ?j ?k ?l] =>
@@ -35,20 +36,76 @@ Qed.
 
 (* with an empty access list these are Interp.top_call / top_create *)
 Lemma top_call_al_nil e w pcs to value input gas :
-  top_call_al e w pcs [] to value input gas = top_call e w pcs to value input gas.
-Proof. unfold top_call_al, top_call, prepare_al, prepare. simpl. rewrite app_nil_r. reflexivity. Qed.
+  fk_7702 (e_fork e) = false ->
+  top_call_al e w pcs [] [] to value input gas = top_call e w pcs to value input gas.
+Proof.
+  intros H. unfold top_call_al, top_call, prepare_al, prepare. rewrite H. simpl.
+  rewrite app_nil_r. reflexivity.
+Qed.
 
 Lemma top_create_al_nil e w pcs value init gas :
   top_create_al e w pcs [] value init gas = top_create e w pcs value init gas.
 Proof. unfold top_create_al, top_create, prepare_al, prepare. simpl. rewrite app_nil_r. reflexivity. Qed.
 
+(* no model fault at all (C27's refund-counter invariant): the prepared state of a
+   transaction satisfies the invariant because the committed storage of the environment
+   is the storage the transaction starts from *)
+Lemma inv_add_refund e w g : Inv e w -> Inv e (add_refund w g).
+Proof.
+  intros H. eapply inv_same; [exact H|]. apply same_sr_accounts; simpl; [reflexivity|lia].
+Qed.
+
+Lemma inv_prepare_al e w dst pcs al :
+  (forall a k, orig_storage e a k = get_storage w a k) -> Inv e (prepare_al e w dst pcs al).
+Proof. intros H. apply refund_inv_start. intros a k. rewrite H. reflexivity. Qed.
+
+Lemma inv_apply_auth e chainid w a : Inv e w -> Inv e (apply_auth chainid w a).
+Proof.
+  intros H. unfold apply_auth. destruct (negb _); [exact H|]. destruct (_ <=? _); [exact H|].
+  destruct (au_authority a) as [authority|]; [|exact H].
+  cbv zeta. destruct (_ && _); [apply inv_warm_addr, H|].
+  destruct (negb _); [apply inv_warm_addr, H|].
+  apply inv_set_nonce, inv_set_code.
+  destruct (is_empty _ _); [apply inv_warm_addr, H|apply inv_add_refund, inv_warm_addr, H].
+Qed.
+
+Lemma inv_apply_auths e chainid auths : forall w, Inv e w -> Inv e (fold_left (apply_auth chainid) auths w).
+Proof. induction auths as [|a r IH]; intros w H; simpl; auto. apply IH, inv_apply_auth, H. Qed.
+
+Lemma top_call_al_full e w pcs al auths to value input gas :
+  (forall a k, orig_storage e a k = get_storage w a k) ->
+  forall k, t_status (top_call_al e w pcs al auths to value input gas) <> S_Fault k.
+Proof.
+  intros H. apply okst_not_ru; [apply top_call_al_good|].
+  unfold top_call_al. cbv zeta. simpl. apply not_ru_status_of.
+  apply (evm_call_inv _ e K_CALL (e_origin e) 0 0 false 0 _ to value input gas (hyp_rec_inv_top e)).
+  pose proof (inv_apply_auths e (e_chainid e) auths _ (inv_prepare_al e w (Some to) pcs al H)) as Hi.
+  destruct (fk_7702 (e_fork e)); [|exact Hi].
+  destruct (parse_delegation _); [apply inv_warm_addr, Hi|exact Hi].
+Qed.
+
+Lemma top_create_al_full e w pcs al value init gas :
+  (forall a k, orig_storage e a k = get_storage w a k) ->
+  forall k, t_status (top_create_al e w pcs al value init gas) <> S_Fault k.
+Proof.
+  intros H. apply okst_not_ru; [apply top_create_al_good|].
+  unfold top_create_al. cbv zeta. simpl. apply not_ru_status_of.
+  apply (evm_create_inv _ e (e_origin e) false 0 _ init gas value _ (hyp_rec_inv_top e)
+           (inv_prepare_al e w None pcs al H)).
+Qed.
+
 Lemma exec_tx_good tf b w t :
   let r := exec_tx tf b w t in
-  t_gas r <= tx_gas t - intrinsic_gas t /\ okst (t_status r).
+  t_gas r <= tx_gas t - intrinsic_gas t /\ forall k, t_status r <> S_Fault k.
 Proof.
-  unfold exec_tx. cbv zeta. destruct (tx_to t).
-  - apply top_call_al_good.
-  - apply top_create_al_good.
+  unfold exec_tx. cbv zeta.
+  assert (Hs : forall a k, orig_storage (tx_env tf b w t) a k = get_storage (buy_gas b w t) a k).
+  { intros a k. rewrite (orig_storage_start (tx_env tf b w t) w a k eq_refl).
+    symmetry. apply (proj1 (same_sr_set_balance w _ _)). }
+  destruct (tx_to t).
+  - split; [apply top_call_al_good|]. apply top_call_al_full.
+    intros a k. rewrite Hs. symmetry. apply (proj1 (same_sr_set_nonce _ _ _)).
+  - split; [apply top_create_al_good|]. apply top_create_al_full. exact Hs.
 Qed.
 
 (* ------------------------------------------------------------------ *)
@@ -63,6 +120,7 @@ Proof.
   unfold Fees.TX_BASE_COST, Fees.TX_CREATE_COST, Fees.PER_EMPTY_ACCOUNT_COST, Fees.TX_DATA_NONZERO_COST_2028,
     Fees.TX_DATA_ZERO_COST, Fees.INITCODE_WORD_COST, Fees.ACCESS_LIST_ADDRESS_COST,
     Fees.ACCESS_LIST_STORAGE_KEY_COST, Fees.words.
+  set (au := lenN (tx_auths t)).
   destruct (is_create t); cbn [andb]; lia.
 Qed.
 
@@ -109,7 +167,8 @@ Qed.
 (* ------------------------------------------------------------------ *)
 (* one transaction *)
 
-Definition okrc (rc : tx_receipt) : Prop := okst (rc_status rc).
+(* the receipt's status is an EVM outcome, never a model fault *)
+Definition okrc (rc : tx_receipt) : Prop := forall k, rc_status rc <> S_Fault k.
 
 Lemma apply_tx_included tf b accts ga t accts' rc :
   apply_tx tf b accts ga t = inr (accts', rc) ->
@@ -288,28 +347,34 @@ Qed.
 (* ------------------------------------------------------------------ *)
 (* system calls *)
 
-Lemma system_call_ok tf b accts addr input :
-  okerr (cr_err (system_call tf b accts addr input)).
-Proof. unfold system_call. apply evm_call_ok, hyp_rec_top. Qed.
-
-Lemma fault_of_ok o k : okerr o -> fault_of o = Some k -> k = F_RefundUnderflow.
+Lemma system_call_ok tf b accts addr input k :
+  cr_err (system_call tf b accts addr input) <> Some (S_Fault k).
 Proof.
-  destruct o as [s|]; [|discriminate]. destruct s; try discriminate.
-  simpl. intros H X. inversion X; subst. destruct k; simpl in H; try contradiction; reflexivity.
+  unfold system_call.
+  match goal with |- context [evm_call ?rc ?a ?b ?c ?d ?ee ?f ?g ?h ?i ?j ?k ?l] =>
+    pose proof (evm_call_ok rc a b c d ee f g h i j k l hyp_rec_top) as H1; cbv zeta in H1;
+    assert (H2 : not_ru_err (cr_err (evm_call rc a b c d ee f g h i j k l)))
+  end.
+  { apply evm_call_inv; [apply hyp_rec_inv_top|]. apply refund_inv_start. intros a k0.
+    rewrite (orig_storage_start (sys_env tf b accts) (mk_world accts [] [0; addr] [] 0 [] [] []) a k0 eq_refl).
+    reflexivity. }
+  destruct H1 as [_ H1]. destruct (cr_err _) as [s|]; [|discriminate].
+  intros E. inversion E; subst. simpl in H1. destruct k; simpl in H1; try contradiction;
+    apply H2; reflexivity.
 Qed.
 
-Lemma apply_system_call_fault tf b accts addr input k :
-  snd (apply_system_call tf b accts addr input) = Some k -> k = F_RefundUnderflow.
-Proof. unfold apply_system_call. simpl. apply fault_of_ok, system_call_ok. Qed.
+Lemma apply_system_call_fault tf b accts addr input : snd (apply_system_call tf b accts addr input) = None.
+Proof.
+  unfold apply_system_call. simpl. pose proof (system_call_ok tf b accts addr input) as H.
+  destruct (cr_err _) as [s|]; [|reflexivity]. destruct s; try reflexivity. exfalso. eapply H. reflexivity.
+Qed.
 
-Lemma request_call_fault tf b accts ty addr k :
-  request_call tf b accts ty addr = inl (BE_Fault k) -> k = F_RefundUnderflow.
+Lemma request_call_fault tf b accts ty addr k : request_call tf b accts ty addr <> inl (BE_Fault k).
 Proof.
   unfold request_call. destruct (get_code _ _); [discriminate|].
   pose proof (system_call_ok tf b accts addr []) as H.
   destruct (cr_err _) as [s|]; [|discriminate].
-  destruct s; try discriminate. intros X. inversion X; subst.
-  destruct k; simpl in H; try contradiction; reflexivity.
+  destruct s; try discriminate. intros X. inversion X; subst. eapply H. reflexivity.
 Qed.
 
 (* ------------------------------------------------------------------ *)
@@ -329,32 +394,28 @@ Proof.
   - simpl. auto.
 Qed.
 
-Lemma apply_block_error tf bk pre k :
-  br_error (apply_block tf bk pre) = Some (BE_Fault k) -> k = F_RefundUnderflow.
+Lemma apply_block_error tf bk pre k : br_error (apply_block tf bk pre) <> Some (BE_Fault k).
 Proof.
   unfold apply_block. cbv zeta.
   destruct (match bk_beacon_root bk with Some _ => _ | None => _ end) as [a1 f1] eqn:E1.
-  assert (H1 : forall k, f1 = Some k -> k = F_RefundUnderflow).
+  assert (H1 : f1 = None).
   { destruct (bk_beacon_root bk).
-    - intros k' Hk. apply (apply_system_call_fault tf (bk_env bk) pre BEACON_ROOTS_ADDRESS l). rewrite E1. exact Hk.
-    - inversion E1. discriminate. }
+    - pose proof (apply_system_call_fault tf (bk_env bk) pre BEACON_ROOTS_ADDRESS l) as X. rewrite E1 in X. exact X.
+    - inversion E1. reflexivity. }
   destruct (if tf_requests tf then _ else _) as [a2 f2] eqn:E2.
-  assert (H2 : forall k, f2 = Some k -> k = F_RefundUnderflow).
+  assert (H2 : f2 = None).
   { destruct (tf_requests tf).
-    - intros k' Hk. eapply apply_system_call_fault. rewrite E2. exact Hk.
-    - inversion E2. discriminate. }
-  assert (HP : match first_fault f1 f2 with Some k0 => Some (BE_Fault k0) | None => None end = Some (BE_Fault k) ->
-               k = F_RefundUnderflow).
-  { destruct f1 as [k1|]; simpl.
-    - intros X. inversion X; subst. apply H1. reflexivity.
-    - destruct f2 as [k2|]; [|discriminate]. intros X. inversion X; subst. apply H2. reflexivity. }
+    - match type of E2 with apply_system_call ?a ?b ?c ?d ?e = _ =>
+        pose proof (apply_system_call_fault a b c d e) as X end. rewrite E2 in X. exact X.
+    - inversion E2. reflexivity. }
+  subst f1 f2. simpl.
   destruct (tf_requests tf).
   - destruct (request_call _ _ _ 1 _) as [e|[a4 r1]] eqn:R1.
     + simpl. intros X. inversion X; subst. eapply request_call_fault. exact R1.
     + destruct (request_call _ _ _ 2 _) as [e|[a5 r2]] eqn:R2; simpl.
       * intros X. inversion X; subst. eapply request_call_fault. exact R2.
-      * exact HP.
-  - simpl. exact HP.
+      * discriminate.
+  - simpl. discriminate.
 Qed.
 
 (* ------------------------------------------------------------------ *)
@@ -427,27 +488,23 @@ Lemma spec_deterministic tf bk pre r1 r2 :
   apply_block tf bk pre = r1 -> apply_block tf bk pre = r2 -> r1 = r2.
 Proof. intros A B. rewrite <- A, <- B. reflexivity. Qed.
 
-Lemma okst_only_refund s k : okst s -> s = S_Fault k -> k = F_RefundUnderflow.
-Proof. intros H E. eapply okst_faults; eauto. Qed.
-
 Lemma spec_total_tx tf b accts ga t accts' rc k :
-  apply_tx tf b accts ga t = inr (accts', rc) -> rc_status rc = S_Fault k -> k = F_RefundUnderflow.
+  apply_tx tf b accts ga t = inr (accts', rc) -> rc_status rc <> S_Fault k.
 Proof.
-  intros A E. destruct (apply_tx_included _ _ _ _ _ _ _ A) as (_ & _ & _ & _ & O).
-  eapply okst_only_refund; eauto.
+  intros A. destruct (apply_tx_included _ _ _ _ _ _ _ A) as (_ & _ & _ & _ & O). apply O.
 Qed.
 
 Lemma spec_total_block tf bk pre :
   let r := apply_block tf bk pre in
-  (forall rc cum k, In (rc, cum) (br_receipts r) -> rc_status rc = S_Fault k -> k = F_RefundUnderflow) /\
-  (forall k, br_error r = Some (BE_Fault k) -> k = F_RefundUnderflow) /\
+  (forall rc cum k, In (rc, cum) (br_receipts r) -> rc_status rc <> S_Fault k) /\
+  (forall k, br_error r <> Some (BE_Fault k)) /\
   ((forall x, bytes_key (fk_keccak (tf_evm tf) x)) -> exists h, br_state_root r = Some h).
 Proof.
   cbv zeta. split; [|split].
   - destruct (apply_block_receipts tf bk pre) as (a & -> & _ & _).
-    intros rc cum k HI E. apply in_rev in HI.
+    intros rc cum k HI. apply in_rev in HI.
     destruct (tx_loop_inv tf (bk_env bk) a (bk_txs bk)) as (_ & _ & F).
-    rewrite Forall_forall in F. specialize (F _ HI). eapply okst_only_refund; eauto.
+    rewrite Forall_forall in F. apply (F _ HI).
   - intros k. apply apply_block_error.
   - intros Hb. unfold apply_block. cbv zeta.
     destruct (match bk_beacon_root bk with Some _ => _ | None => _ end) as [a1 f1].
